@@ -348,7 +348,7 @@ def work(payload, skip, report):
             acc.case()
             for oracle, obs, exp in out:
                 acc.violation(oracle, {"page": text, "config": cfg}, obs, exp)
-            if i % 30011 == 0:
+            if i == 5 or i % 1009 == 0:
                 acc.sample({"page": text, "config": cfg})
         acc.distinct("configs", cfg)
     for ctx in ctxs.values():
